@@ -68,7 +68,8 @@ impl Timeline for Stub {
 fn stub_pool() -> Vec<Stub> {
     let mut v = vec![];
     let mut tag = 1;
-    for cycle in [None, Some(1.0f32), Some(2.0)] {
+    // incl. cycle durations that differ by one ulp or by less than f32::EPSILON in absolute terms: they do NOT agree
+    for cycle in [None, Some(1.0f32), Some(2.0), Some(f32::from_bits(1.0f32.to_bits() + 1)), Some(1.0e-8), Some(5.0e-8)] {
         for delay in [0.0f32, 0.5, 2.0] {
             for duration in [1.0f32, 3.0, f32::INFINITY] {
                 for repeat in [Repeat::None, Repeat::Times(0), Repeat::Times(3), Repeat::Times(u32::MAX), Repeat::Infinite] {
@@ -367,7 +368,7 @@ pub fn run(run: Run) -> ! {
     cov.insert("traces_validated_against_impl".into(), json!(acc.evals));
     cov.insert("evaluations".into(), json!(acc.evals));
     cov.insert("distinct_nontrivial".into(), json!(acc.lists - 1));
-    cov.insert("rule".into(), json!(format!("ALL lists of length 0..={maxlen} over a pool of {np} component timelines (property sets {{a}},{{k}},{{a,k}},{{}}; delays 0..1; cycles 1/2,1,2,4; repeat None/Times 0,1,2,3/Infinite/Times(u32::MAX, metadata only); reverse on/off); oracle: merged.update == components applied in order (bit-equal; fresh and dirty targets; union of the components' time grids), same after start_with, all orders agree when property sets are disjoint ({} permuted lists), delay=min, duration=max (inf if any), repeat=largest in None<Times n<Infinite, cycle_duration=Some iff all equal, MergedTimeline::from(t) == t; plus a metadata family of {} lists over 135 stub components (cycle undefined/1/2 x delay 0/0.5/2 x duration 1/3/inf x repeat None/Times 0/Times 3/Times(u32::MAX)/Infinite): flat lists and nested merged timelines [[a,b],[c]], [[a],[b,c]] with the same oracle; non-trivial = non-empty lists", acc.disjoint_orders, stub_lists)));
+    cov.insert("rule".into(), json!(format!("ALL lists of length 0..={maxlen} over a pool of {np} component timelines (property sets {{a}},{{k}},{{a,k}},{{}}; delays 0..1; cycles 1/2,1,2,4; repeat None/Times 0,1,2,3/Infinite/Times(u32::MAX, metadata only); reverse on/off); oracle: merged.update == components applied in order (bit-equal; fresh and dirty targets; union of the components' time grids), same after start_with, all orders agree when property sets are disjoint ({} permuted lists), delay=min, duration=max (inf if any), repeat=largest in None<Times n<Infinite, cycle_duration=Some iff all equal, MergedTimeline::from(t) == t; plus a metadata family of {} lists over 270 stub components (cycle undefined/1/2/1+1ulp/1e-8/5e-8 x delay 0/0.5/2 x duration 1/3/inf x repeat None/Times 0/Times 3/Times(u32::MAX)/Infinite): flat lists and nested merged timelines [[a,b],[c]], [[a],[b,c]] with the same oracle; non-trivial = non-empty lists", acc.disjoint_orders, stub_lists)));
     cov.insert("exhaustive".into(), json!(true));
     cov.insert("metadata_checks".into(), json!(acc.meta_checks));
     cov.insert("distinct_observed_outcomes_capped".into(), json!(acc.outcomes.len()));
